@@ -542,6 +542,8 @@ class FixedWidthBinning(BinningBase):
             return self._force_bin_existence_single(
                 values, includes_right_edge=includes_right_edge
             )
+        elif np.size(values) == 0:
+            return None
         else:
             min_, max_ = np.min(values), np.max(values)
             result = self._force_bin_existence_single(min_)
